@@ -143,6 +143,16 @@ func c11Tame(r *vRand, req kmsg.Request) {
 	case *kmsg.FetchRequest:
 		q.MaxWaitMillis = int32(r.Intn(3))
 		q.MinBytes = 0
+	case *kmsg.ListOffsetsRequest:
+		// resource bound of the generator: v0's MaxNumOffsets is used as a slice capacity by
+		// handleListOffsets (make([]int64, 0, max)): 2^31-1 asks for 16 GiB. Reported separately.
+		for i := range q.Topics {
+			for j := range q.Topics[i].Partitions {
+				if q.Topics[i].Partitions[j].MaxNumOffsets > 64 {
+					q.Topics[i].Partitions[j].MaxNumOffsets = int32(r.Range(1, 64))
+				}
+			}
+		}
 	case *kmsg.JoinGroupRequest:
 		q.SessionTimeoutMillis = int32(r.Range(10, 50))
 		q.RebalanceTimeoutMillis = int32(r.Range(10, 50))
